@@ -1,7 +1,7 @@
 import GuppyVerif.Gen.C16Coerce
 import GuppyVerif.Util.Sexp
 /-! Line-protocol driver for C16 (model instantiated with the regenerated `C16Gen.cfg`):
-    `against ACT EXP` / `expr FORM ACT EXP` → `same` | `coerced <impl>` | `mismatch` | `stuck <why>`
+    `index ACT` → `<read> | <write> | <place>`;  `against ACT EXP` / `expr FORM ACT EXP` → `same` | `coerced <impl>` | `mismatch` | `stuck <why>`
     `operand L R`     → `<result kind> <left impl|same> <right impl|same>` | `none` -/
 open GuppyVerif GuppyVerif.Coerce GuppyVerif.IntLit
 
@@ -23,6 +23,9 @@ def handle (line : String) : String :=
       | "synth" => some .synth | "call" => some .call | "comptime" => some .comptime | _ => none
     match form?, kind? a, kind? e with
     | some f, some a, some e => showOut (checkExpr C16Gen.cfg f a e) | _, _, _ => "bad-op"
+  | ["index", a] => match kind? a with
+    | some a => s!"{showOut1 (indexRead C16Gen.cfg a)} | {showOut1 (indexWrite C16Gen.cfg a)} | {showOut1 (indexPlace C16Gen.cfg a)}"
+    | none => "bad-op"
   | ["operand", l, r] => match kind? l, kind? r with
     | some l, some r => match operand C16Gen.cfg l r with
       | some (k, li, ri) => s!"{tyName k} {showOut1 li} {showOut1 ri}"
